@@ -43,6 +43,7 @@ fn exec(ctx: &mut Ctx, line: &str) -> String {
         "kf" => fam_kf::exec(ctx, &mut t),
         "smetric" => fam_smetric::exec(ctx, &mut t),
         "geom" => fam_geom::exec_geom(ctx, &mut t),
+        "own" => fam_geom::exec_own(ctx, &mut t),
         _ => format!("UNKNOWN-FAMILY {fam}"),
     }
 }
